@@ -64,7 +64,9 @@ const KEYS: [(&str, &str); 7] = [("c", "1_x-y:z"), ("c", "2"), ("d", "1"), ("c",
 const APPROVABLE: usize = 2; // the third key is never approved
 
 /// the two source addresses differ only in letter case
-fn src_str(i: u8) -> &'static str { if i == 0 { "0xSourceAddr" } else { "0xsourceaddr" } }
+/// 13 bytes, so that the XDR form of the string carries padding; source 2 (delivered, approved nowhere) is
+/// source 0 followed by a NUL byte, which the padding would swallow in an unprefixed encoding
+fn src_str(i: u8) -> &'static str { match i { 0 => "0xSourceAddr1", 1 => "0xsourceaddr1", _ => "0xSourceAddr1\0" } }
 /// payload 2 is the empty payload; "payload" 3 exists only as an approved hash: the all-zero hash, which
 /// is the hash of no payload at all
 fn payload_of(i: u8) -> Vec<u8> { match i { 0 => b"payload one".to_vec(), 1 => b"payload 2".to_vec(), _ => vec![] } }
@@ -146,6 +148,11 @@ impl Scenario for C16 {
             // deliveries with the empty payload
             for key in 0..2usize {
                 v.push(Act::Execute { app, key, src: 0, payload: 2 });
+            }
+            for key in 0..2usize {
+                for payload in 0..2u8 {
+                    v.push(Act::Execute { app, key, src: 2, payload });
+                }
             }
             for key in 0..7usize {
                 for src in 0..2u8 {
@@ -293,7 +300,7 @@ fn main() {
         let mut o = Opts::new(tier, if tier == "thorough" { 12 } else { 8 });
         o.min_depth = 3;
         o.xcheck = tier == "thorough";
-        o.rule = "all sequences over gateway approvals (2 message ids x destination {example app, minimal app} x 2 source addresses x 2 payloads, plus approvals carrying the empty payload's hash and the all-zero hash, plus the account-type address made of the example app's 32 bytes; two-message batches incl. one led by a message from another source chain) and deliveries app.execute(chain, id, source address, payload) for both apps x 7 ids (one on another chain; four approved nowhere: an empty id and three whose chain and id joined by '_', '-' or ':' coincide with an approvable key's) x 2 source addresses x 2 payloads; so never-approved, approved-for-the-other-app, other payload / source address / id / chain, delivered twice and conforming deliveries all occur; deliveries with the empty payload; one signer rotation; a third party asking the gateway directly (refused, must change nothing); explored to fixpoint of the finite status graph".into();
+        o.rule = "all sequences over gateway approvals (2 message ids x destination {example app, minimal app} x 2 source addresses x 2 payloads, plus approvals carrying the empty payload's hash and the all-zero hash, plus the account-type address made of the example app's 32 bytes; two-message batches incl. one led by a message from another source chain) and deliveries app.execute(chain, id, source address, payload) for both apps x 7 ids (one on another chain; four approved nowhere: an empty id and three whose chain and id joined by '_', '-' or ':' coincide with an approvable key's) x 2 source addresses x 2 payloads; so never-approved, approved-for-the-other-app, other payload / source address / id / chain, delivered twice and conforming deliveries all occur; deliveries with the empty payload; deliveries naming the approved source address followed by a NUL byte (the addresses are 13 bytes long, so their XDR form is padded); one signer rotation; a third party asking the gateway directly (refused, must change nothing); explored to fixpoint of the finite status graph".into();
         (C16, o)
     });
 }
